@@ -919,7 +919,18 @@ func (c *txCase) doNewBranch() {
 	if c.newBranches >= 2 {
 		return
 	}
-	src := rapid.SampledFrom(c.m.db.branches).Draw(c.rt, "newbranch.from")
+	// not from a head in the undetermined zone (see doDoltCommit: such a head commit can carry a
+	// conflict artifact, and a branch created from it is born with dolt_status "conflict")
+	var sources []string
+	for _, b := range c.m.db.branches {
+		if !c.headUnsure[b] {
+			sources = append(sources, b)
+		}
+	}
+	if len(sources) == 0 {
+		return
+	}
+	src := rapid.SampledFrom(sources).Draw(c.rt, "newbranch.from")
 	c.newBranches++
 	nb := fmt.Sprintf("n%d", c.newBranches)
 	q := "CALL dolt_branch('" + nb + "','" + src + "')"
